@@ -476,7 +476,9 @@ class RaftNode(Entity):
                 "term": self._current_term,
                 "success": True,
                 "from": self.name,
-                "match_index": self._log.last_index,
+                # Only the prefix checked against this request is known to
+                # match the leader; a longer local log may end in stale entries.
+                "match_index": prev_log_index + len(entries),
             },
             daemon=True,
         )
